@@ -37,7 +37,7 @@ EXPENSIVE = ('inv', 'div', '/', 'outertan', 'normalized', 'sw', '>>', 'proj', '@
 def floors(tier):
     return {'distinct_nontrivial': 1500 if tier == 'quick' else 30000, 'programs': 600, 'numeric_mode_compared': 1000,
             'symbolic_mode_compared': 150, 'grammar2_programs': 60, 'depth3plus_programs': 100,
-            'programs_calling_registered_functions': 40, 'three_argument_programs': 40,
+            'programs_calling_registered_functions': 40, 'three_argument_programs': 40, 'programs_with_same_named_callees': 20,
             'feature_negpow': 20, 'feature_coeff': 20, 'feature_numbers': 100, 'feature_grade': 60, 'feature_dual': 60}
 
 
@@ -100,6 +100,9 @@ def productions(d, start, rng=None):
     # calls of other registered functions (g1, g2 are provided by the harness)
     P.append(('g1({x}, {y})', 2, {'regcall'}, 1))
     P.append(('g2({x})', 1, {'regcall'}, 1))
+    # two registered callees that share a __name__ (factory closures), both used in one program
+    P.append(('(h2({x}) - h3({y}))', 2, {'regcall', 'same-name-callees'}, 1))
+    P.append(('(h3({x}) + h2({x}))', 1, {'regcall', 'same-name-callees'}, 1))
     # ---- second grammar: other uses of the API -----------------------------------
     for m in OTHER_UN:
         P.append(('({x}).' + m + '()', 1, {'un:' + m}, 2))
@@ -211,6 +214,7 @@ def plan(tier, seed):
 
 G1_SRC = 'def g1(a, b):\n    return (a * b).grade(1) + a\n'
 G2_SRC = 'def g2(a):\n    return ~a + 2 * a\n'
+H_SRC = 'def mk(k):\n    def same(a):\n        return k * a + a * a\n    return same\nh2 = mk(2)\nh3 = mk(3)\n'
 
 
 def compile_prog(src_expr, nargs, ns):
@@ -245,8 +249,9 @@ def run_shard(shard, ctx):
                      for _ in range(unit['count'])]
         # harness-side registered callees: plain versions for the oracle, registered versions for registration
         plain_ns = {}
-        exec(G1_SRC + G2_SRC, plain_ns)
-        reg_ns = {'g1': alg.register(plain_ns['g1']), 'g2': alg.register(plain_ns['g2'])}
+        exec(G1_SRC + G2_SRC + H_SRC, plain_ns)
+        reg_ns = {'g1': alg.register(plain_ns['g1']), 'g2': alg.register(plain_ns['g2']),
+                  'h2': alg.register(plain_ns['h2']), 'h3': alg.register(plain_ns['h3'])}
         for prog in progs:
             if ctx.out_of_time():
                 ctx.count('programs_skipped_out_of_time')
@@ -320,6 +325,8 @@ def one_program(ctx, alg, cfg, name, prog, plain_ns, reg_ns):
         ctx.count('depth3plus_programs')
     if 'regcall' in prog.feats:
         ctx.count('programs_calling_registered_functions')
+    if 'same-name-callees' in prog.feats:
+        ctx.count('programs_with_same_named_callees')
     if prog.nargs == 3:
         ctx.count('three_argument_programs')
     for ft in ('negpow', 'coeff', 'numbers', 'grade', 'dual'):
@@ -329,7 +336,16 @@ def one_program(ctx, alg, cfg, name, prog, plain_ns, reg_ns):
         ctx.sample({'config': name, 'program': prog.desc(), 'arg_keys': [list(k) for k, _ in argspec]})
     modes = ['numeric']
     expensive = any(t in prog.expr for t in EXPENSIVE)
-    if alg.d <= 2 or (ctx.tier == 'thorough' and alg.d == 3 and not expensive) or (alg.d == 3 and not expensive and ctx.rng.random() < 0.15):
+    # symbolic registration expands the whole expression into one rational function; with two or more inversions its degree explodes and
+    # evaluating it in floating point (float literals are printed with 15 digits) is dominated by cancellation error, so such programs
+    # are only compared in numeric mode (exact Fraction inputs and no float literal => still compared exactly, see below)
+    inversions = prog.expr.count('** -') + prog.expr.count('.inv()') + prog.expr.count(') / (') + prog.expr.count('.div(') \
+        + prog.expr.count('.outertan()') + prog.expr.count('.normalized()') + prog.expr.count('(1 / ')
+    has_float_literal = '0.5' in prog.expr or 'sqrt' in prog.expr or 'norm' in prog.expr or 'exp' in prog.expr or 'outer' in prog.expr
+    ill_conditioned = inversions >= 2 and has_float_literal
+    if ill_conditioned:
+        ctx.count('symbolic_mode_skipped_ill_conditioned_float_program')
+    elif alg.d <= 2 or (ctx.tier == 'thorough' and alg.d == 3 and not expensive) or (alg.d == 3 and not expensive and ctx.rng.random() < 0.15):
         modes.append('symbolic')
     for mode in modes:
         cid = pid + [mode]
